@@ -209,6 +209,7 @@ def monitor_trace(tr):
             viol.append(dict(prop='C06', i=rec['i'], sig=dict(kind='hit-evicted', algo=algo), msg='a hit removed %r' % left))
         if not overflowed and left and algo not in ('no',) and not (keyok and algo != 'inf' and len(bm) + 1 > cfg['maxsize']):
             viol.append(dict(prop='C06', i=rec['i'], sig=dict(kind='evicted-without-overflow', algo=algo), msg='entries %r left without overflow' % left))
+    viol += policy_violations(tr)
     return viol, tags
 
 
@@ -228,8 +229,8 @@ def twin_violations(prop, tr):
             retrievable = 'ok' in key and (key['ok'] in dict(map(tuple, b['mem'])) or (b['arch'] is not None and key['ok'] in dict(map(tuple, b['arch']))))
             if 'ok' in key and 'err' in fn and not retrievable:
                 drop.add(rec['i'])
-            if 'ok' not in key and cfg['safe']:
-                drop.add(rec['i'])
+            if 'ok' not in key and cfg['safe'] and cfg['algo'] != 'no':
+                drop.add(rec['i'])   # (safe.no_cache runs its usual purge after the direct evaluation)
         if prop == 'C18' and op[0] in ('lookup', 'key', 'info', 'archivedq'):
             drop.add(rec['i'])
     if not drop:
@@ -269,3 +270,83 @@ def twin_violations(prop, tr):
                                  (o1, am, a['stats']), (o2, bm, b['stats']))))
             break
     return viol, len(drop)
+
+
+# ------------------------------------------------------------------ C06: independent policy spec
+def policy_violations(tr):
+    """history-level specification of the four policies, written from the property text (not from
+    the code's bookkeeping): per-key last-use time and use count since the key entered the cache
+    through a call.  Entries that entered by bulk load / pre-population are untracked and are never
+    chosen (documented behaviour)."""
+    cfg = tr['cfg']
+    algo = cfg['algo']
+    if algo in ('no', 'inf'):
+        return []
+    viol = []
+    last = {}      # key -> time of last use (tracked keys only)
+    count = {}     # key -> uses since it entered
+    t = 0
+    for rec in tr['recs']:
+        op, out, b, a = rec['op'], rec['out'], rec['before'], rec['after']
+        kind = op[0]
+        bm = dict(map(tuple, b['mem'])); am = dict(map(tuple, a['mem']))
+        if kind == 'clear':
+            last.clear(); count.clear(); continue
+        if kind not in ('call', 'callbad'):
+            continue
+        key = rec['line']['key']
+        if 'ok' not in key:
+            continue
+        k = key['ok']
+        t += 1
+        completed = isinstance(out, dict) and 'ret' in out
+        raised_user = isinstance(out, dict) and 'exc' in out and out['exc'] != 'IndexError'
+        left = sorted(x for x in bm if x not in am)
+        archived = b['arch'] is not None
+        was_resident = k in bm
+        if raised_user and not was_resident and not (archived and k in dict(map(tuple, b['arch']))):
+            if left:
+                viol.append(dict(prop='C06', i=rec['i'], sig=dict(kind='raise-evicted', algo=algo), msg='a raising call removed %r' % left))
+            continue
+        overflow = (not was_resident) and len(bm) + 1 > cfg['maxsize']
+        if was_resident or not overflow:
+            if left:
+                viol.append(dict(prop='C06', i=rec['i'], sig=dict(kind='evicted-without-overflow', algo=algo), msg='entries %r left without overflow' % left))
+            last[k] = t; count[k] = count.get(k, 0) + 1
+            continue
+        # overflow after inserting k
+        resident_after_insert = set(bm) | {k}
+        if archived and cfg['purge']:
+            if am:
+                viol.append(dict(prop='C06', i=rec['i'], sig=dict(kind='purge-incomplete', algo=algo), msg='purge left %r' % sorted(am)))
+            last.clear(); count.clear()
+            continue
+        gone = sorted(x for x in resident_after_insert if x not in am)
+        # the current call is a use of k (lru/lfu record it before evicting; mru after)
+        if algo != 'mru':
+            last[k] = t; count[k] = count.get(k, 0) + 1
+        tracked = [x for x in last if x in resident_after_insert]
+        exp = None
+        if algo == 'lru':
+            exp = [min(tracked, key=lambda x: last[x])] if tracked else []
+            ok = gone == exp
+        elif algo == 'mru':
+            exp = [max(tracked, key=lambda x: last[x])] if tracked else []
+            ok = gone == exp
+        elif algo == 'lfu':
+            n = min(max(2, cfg['maxsize'] // 10), len(tracked))
+            kept = [x for x in tracked if x not in gone]
+            ok = len(gone) == n and all(x in tracked for x in gone) and all(count[g] <= count[r] for g in gone for r in kept)
+            exp = 'the %d least-used of %r' % (n, {x: count[x] for x in tracked})
+        elif algo == 'rr':
+            ok = len(gone) == 1
+            exp = 'exactly one resident entry'
+        if not ok:
+            viol.append(dict(prop='C06', i=rec['i'],
+                             sig=dict(kind='policy', algo=algo, purge=cfg['purge'], exc=None if completed else out.get('exc'), none_evicted=not gone),
+                             msg='%s overflow removed %r, policy selects %r (last use %r)' % (algo, gone, exp, {x: last[x] for x in tracked})))
+        for g in gone:
+            last.pop(g, None); count.pop(g, None)
+        if algo == 'mru' and k in am and completed:
+            last[k] = t; count[k] = count.get(k, 0) + 1
+    return viol
